@@ -22,7 +22,7 @@ import (
 // crashCase is one byte stream delivered at one stage.
 type crashCase struct {
 	ID    int    `json:"id"`
-	Stage string `json:"stage"`          // connect | handshake | ready | ready-tx | ready-block
+	Stage string `json:"stage"`          // connect | handshake | ready | ready-tx | ready-block | ready-block-pieces
 	Name  string `json:"name"`           // base message + mutation
 	Hex   string `json:"hex"`            // bytes delivered after the stage prefix
 	Then  string `json:"then,omitempty"` // optional valid letter delivered after the mutated bytes
@@ -40,6 +40,9 @@ func stagePrefix(stage string) (netsim.Options, []string) {
 		return netsim.Options{TxManager: true}, []string{"version", "verack", "headers[bsv-split]"}
 	case "ready-block":
 		return netsim.Options{TxManager: true}, []string{"version", "verack", "headers[bsv-split]", "!request-block1"}
+	case "ready-block-pieces":
+		// the same stage with the stream arriving in pieces (reads of at most 7 bytes)
+		return netsim.Options{TxManager: true, ReadChunk: 7}, []string{"version", "verack", "headers[bsv-split]", "!request-block1"}
 	}
 	panic(stage)
 }
@@ -120,7 +123,7 @@ func buildCases(thorough bool) []crashCase {
 		cases = append(cases, crashCase{ID: id, Stage: stage, Name: name, Hex: hex.EncodeToString(b), Then: then})
 		id++
 	}
-	stages := []string{"connect", "handshake", "ready", "ready-tx", "ready-block"}
+	stages := []string{"connect", "handshake", "ready", "ready-tx", "ready-block", "ready-block-pieces"}
 	base := []string{"version", "verack", "headers[bsv-split]", "headers[block1]", "headers[block1,block2]", "ping", "pong", "protoconf", "reject",
 		"addr[1]", "inv[tx0]", "tx[tx0]", "block[block1]", "block[block1,2tx]", "getaddr", "unknown[1025]", "extmsg/tx[tx0]", "extmsg/block[block1]", "extmsg/unknown[100]"}
 	var special []namedBytes
@@ -443,7 +446,7 @@ func runC15(tier string) int {
 		Coverage: map[string]any{
 			"evaluations":                   len(cases),
 			"distinct_nontrivial":           nontrivial,
-			"rule":                          "complete structured enumeration: 5 session stages (before handshake, handshake complete, ready, ready with tx manager, ready with a block requested) x {19 base messages x frame mutations (11 declared lengths, corrupt checksum / magic / command, truncation at every header field boundary and inside the payload, 9 hostile values for the leading count), extended headers for tx/block/headers/unknown with 8 declared lengths up to 2^64-1 and no data, headers with 14 bits encodings x 4 timestamps, transactions (classic, extended, inside the requested block) with 9 hostile values for each of input count / input script length / output count / output script length, blocks with hostile transaction counts, a block whose frame length is shorter than its content}; thorough adds ordered (mutated, valid) pairs. Every case is one run of a real node (sharing repositories with a healthy witness node) in a worker process under an 8 GB address-space limit; every case is a distinct hostile input (all non-trivial); a dying worker identifies the case, which is re-run alone to confirm",
+			"rule":                          "complete structured enumeration: 6 session stages (before handshake, handshake complete, ready, ready with tx manager, ready with a block requested, the latter with the stream delivered in pieces of at most 7 bytes) x {19 base messages x frame mutations (11 declared lengths, corrupt checksum / magic / command, truncation at every header field boundary and inside the payload, 9 hostile values for the leading count), extended headers for tx/block/headers/unknown with 8 declared lengths up to 2^64-1 and no data, headers with 14 bits encodings x 4 timestamps, transactions (classic, extended, inside the requested block) with 9 hostile values for each of input count / input script length / output count / output script length, blocks with hostile transaction counts, a block whose frame length is shorter than its content}; thorough adds ordered (mutated, valid) pairs. Every case is one run of a real node (sharing repositories with a healthy witness node) in a worker process under an 8 GB address-space limit; every case is a distinct hostile input (all non-trivial); a dying worker identifies the case, which is re-run alone to confirm",
 			"exhaustive":                    true,
 			"outcomes":                      outcomes,
 			"samples":                       samples,
